@@ -23,10 +23,16 @@ def _norm_dtype(d):
         return 'int64'
     if s in _INT_BITS or s == 'bool':
         return s
+    if s.startswith('complex'):
+        return 'complex'
+    if s == 'object':
+        return 'object'
     return 'float'
 
 
 def _coerce(v, dtype):
+    if dtype in ('complex', 'object'):
+        return v
     if dtype == 'float' or dtype is None:
         return float(v) if isinstance(v, (int, bool)) else v
     if dtype == 'bool':
@@ -309,7 +315,7 @@ def stubs():
         return f
 
     def full(shape, fill_value, dtype=None, **kw):
-        d = _norm_dtype(dtype) or ('float' if isinstance(fill_value, float) else 'int64')
+        d = _norm_dtype(dtype) or ('complex' if isinstance(fill_value, complex) else 'float' if isinstance(fill_value, float) else 'int64')
         return Arr(_shape_arg(shape), dtype=d, fill=fill_value)
 
     def like(fill):
